@@ -199,6 +199,12 @@ func (cs *c10Case) runDigestsSwapping(every int) []uint64 {
 
 type c10Fault struct{}
 
+// c10Noop is a RETN/RETI handler that only takes note.
+type c10Noop struct{}
+
+func (c10Noop) RETNHandle() {}
+func (c10Noop) RETIHandle() {}
+
 func copyIntr(it *z80.Interrupt) *z80.Interrupt {
 	if it == nil {
 		return nil
@@ -323,6 +329,11 @@ func runC10(c *Ctx) {
 			for variant := 0; variant < 2; variant++ {
 				orig := cs.rebuild(master, true, bufO)
 				rb := cs.rebuild(master, false, bufR)
+				if k%3 == 1 {
+					// one of the two has RETN/RETI handlers registered (they only get notified),
+					// the other has none: what the CPU does may not depend on that
+					orig.cpu.RETNHandler, orig.cpu.RETIHandler = c10Noop{}, c10Noop{}
+				}
 				if variant == 1 {
 					// the same new request arrives at this boundary on both
 					var it *z80.Interrupt
@@ -716,6 +727,6 @@ func runC10(c *Ctx) {
 	c.R.Set("goroutine_counts", map[string]int64{"2": gcounts[2], "4": gcounts[4], "8": gcounts[8], "16": gcounts[16]})
 	c.R.Set("alternating_pairs", alternations)
 	c.R.Set("exhaustive", false)
-	c.R.Set("rule", "generated programs over all instruction classes incl. prefixes, block repeats, undefined DD/FD/ED sequences and NMI/INT (all modes) raised by bus callbacks; (a) two runs from equal state compared per Step by digests of States+pending request+bus/port traffic, and a third in which the host replaces the memory OBJECT by an equal one every 29 Steps (the abandoned object is poisoned); (b) at EVERY Step boundary k a CPU rebuilt from copies of States, the memory image, the device state and the pending request is run against a value copy of the original CPU (which keeps any hidden per-instance state), for 40 Steps (to the end from every 8th point), once as is and once with a fresh request injected at that boundary on both; at every 5th boundary a device callback panics in the middle of the next Step, the host recovers, and the CPU must stay equal to one built from its public state at that moment; (c) rounds of 2/4/8/16 goroutines each driving its own CPU behind a barrier, digests compared with the sequential baseline; (d) pairs of different programs stepped alternately; (e) each program also on z80.DumbMemory, a fully populated z80.MapMemory and tinycpm.Memory handed to the CPU directly: per-Step state digests and the final image must equal the run on the monitor memory, plus single Steps of all 930 encodings from boundary-biased states (pointers and operands at FFFF) on DumbMemory/MapMemory directly; the whole binary runs under the Go race detector (halt_on_error=0, reports collected from log_path and attributed to z80 frames). Distinct = distinct (program, snapshot point) + concurrent rounds; every snapshot executes at least one Step")
+	c.R.Set("rule", "generated programs over all instruction classes incl. prefixes, block repeats, undefined DD/FD/ED sequences and NMI/INT (all modes) raised by bus callbacks; (a) two runs from equal state compared per Step by digests of States+pending request+bus/port traffic, and a third in which the host replaces the memory OBJECT by an equal one every 29 Steps (the abandoned object is poisoned); (b) at EVERY Step boundary k a CPU rebuilt from copies of States, the memory image, the device state and the pending request is run against a value copy of the original CPU (which keeps any hidden per-instance state), for 40 Steps (to the end from every 8th point), once as is and once with a fresh request injected at that boundary on both (at every third boundary one of the two has no-op RETN/RETI handlers registered and the other none); at every 5th boundary a device callback panics in the middle of the next Step, the host recovers, and the CPU must stay equal to one built from its public state at that moment; (c) rounds of 2/4/8/16 goroutines each driving its own CPU behind a barrier, digests compared with the sequential baseline; (d) pairs of different programs stepped alternately; (e) each program also on z80.DumbMemory, a fully populated z80.MapMemory and tinycpm.Memory handed to the CPU directly: per-Step state digests and the final image must equal the run on the monitor memory, plus single Steps of all 930 encodings from boundary-biased states (pointers and operands at FFFF) on DumbMemory/MapMemory directly; the whole binary runs under the Go race detector (halt_on_error=0, reports collected from log_path and attributed to z80 frames). Distinct = distinct (program, snapshot point) + concurrent rounds; every snapshot executes at least one Step")
 	c.R.Assume("CPU.HALT is not part of the rebuilt state (Step never reads it); R is included in the comparison")
 }
